@@ -268,11 +268,13 @@ func epilogue(a *asm) {
 	a.pushU(0xa0).pushU(0).op(opRETURN) // return mem[0:0xa0]
 }
 
-// relayReturn: [flag] on the stack -> return flag ‖ returndata
+// relayReturn: [flag] on the stack, the call's output area at mem[0x40:0x80] ->
+// return flag ‖ RETURNDATASIZE ‖ output area (a fixed 128 bytes, so that
+// recursion does not make return data grow)
 func relayReturn(a *asm) {
 	a.pushU(0).op(opMSTORE)
-	a.op(opRETURNDATASIZE).pushU(0).pushU(0x20).op(opRETURNDATACOPY)
-	a.op(opRETURNDATASIZE).pushU(0x20).op(opADD).pushU(0).op(opRETURN)
+	a.op(opRETURNDATASIZE).pushU(0x20).op(opMSTORE)
+	a.pushU(0x80).pushU(0).op(opRETURN)
 }
 
 // ---------------------------------------------------------------- pre-states
@@ -315,16 +317,24 @@ func ctxContract() []byte {
 }
 
 // forwarder: relay the call data to next with the given call opcode.
-func forwarder(callOp int, value uint64, next address, storeAfter bool) []byte {
+// variant "store-after": SSTORE the result flag afterwards; "copy-all": return
+// flag ‖ all return data (RETURNDATACOPY of RETURNDATASIZE bytes).
+func forwarder(callOp int, value uint64, next address, variant string) []byte {
 	a := newAsm()
-	a.op(opCALLDATASIZE).pushU(0).pushU(0).op(opCALLDATACOPY)
-	a.pushU(0).pushU(0).op(opCALLDATASIZE).pushU(0)
+	a.op(opCALLDATASIZE).pushU(0).pushU(0x100).op(opCALLDATACOPY)
+	a.pushU(0x40).pushU(0x40).op(opCALLDATASIZE).pushU(0x100)
 	if callOp == opCALL || callOp == opCALLCODE {
 		a.pushU(value)
 	}
 	a.pushAddr(next).op(opGAS, byte(callOp))
-	if storeAfter {
+	switch variant {
+	case "store-after":
 		a.op(opDUP1).pushU(3).op(opSSTORE)
+	case "copy-all":
+		a.pushU(0).op(opMSTORE)
+		a.op(opRETURNDATASIZE).pushU(0).pushU(0x20).op(opRETURNDATACOPY)
+		a.op(opRETURNDATASIZE).pushU(0x20).op(opADD).pushU(0).op(opRETURN)
+		return a.bytes()
 	}
 	relayReturn(a)
 	return a.bytes()
@@ -408,7 +418,9 @@ type f1Prog struct {
 func family1Code(p f1Prog) []byte {
 	a := newAsm()
 	a.op(opJUMPDEST)
-	a.push32(sentinel)
+	if p.Variant != "underflow" {
+		a.push32(sentinel) // keeps the epilogue alive when the opcode pushes nothing
+	}
 	for i := len(p.Operands) - 1; i >= 0; i-- {
 		a.push32(p.Operands[i])
 	}
@@ -497,9 +509,6 @@ func family1Programs(c int, fullArity3 bool) (progs []f1Prog, exhaustive bool) {
 			p.Operands = append(p.Operands, big.NewInt(1))
 			p.Names = append(p.Names, "1")
 		}
-		if isCallFamily(c) && arity-1 >= 0 {
-			// the GAS operand is still pushed: one operand less than needed overall
-		}
 		progs = append(progs, p)
 	}
 	return progs, exhaustive
@@ -507,8 +516,8 @@ func family1Programs(c int, fullArity3 bool) (progs []f1Prog, exhaustive bool) {
 
 var (
 	ctxContractCode = ctxContract()
-	staticWrapCode  = forwarder(opSTATICCALL, 0, addrA, false)
-	callWrapCode    = forwarder(opCALL, 0, addrA, false)
+	staticWrapCode  = forwarder(opSTATICCALL, 0, addrA, "copy-all")
+	callWrapCode    = forwarder(opCALL, 0, addrA, "copy-all")
 )
 
 func family1Case(p f1Prog, ctx string, mode string) *txCase {
